@@ -325,6 +325,7 @@ def sweepReg (c0 : Cpu) (which blk nblk : Nat) (fmask : UInt8) (link : Nat := 99
   let mut h5 : UInt64 := 0xcbf29ce484222325
   let mut alldoc := true
   let mut alldocF := true
+  let mut anyIo := false
   for k in [0:per] do
     let v := UInt16.ofNat (blk * per + k)
     -- the memory array is threaded linearly: `bus` is emptied while the step owns the array
@@ -359,6 +360,7 @@ def sweepReg (c0 : Cpu) (which blk nblk : Nat) (fmask : UInt8) (link : Nat := 99
         | true, some n => UInt64.ofNat n
         | _, _ => cyc.toUInt64
     alldoc := alldoc && isdoc
+    anyIo := anyIo || (match info with | none => false | some i => Spec.io i.page i.d.op)
     alldocF := alldocF && (match info with
       | none => true
       | some i => !wk && Spec.documented i.page i.d.op && !Spec.io i.page i.d.op)
@@ -368,7 +370,7 @@ def sweepReg (c0 : Cpu) (which blk nblk : Nat) (fmask : UInt8) (link : Nat := 99
     bus := a'.bus
   let ck := bus.mem.foldl (fun h b => mix h b.toUInt64) (0xcbf29ce484222325 : UInt64)
   return "H " ++ hexN 16 (mix h1 ck).toNat ++ " " ++ hexN 16 hf.toNat ++ " " ++ hexN 16 h3.toNat ++ " " ++
-    hexN 16 h4.toNat ++ " " ++ hexN 16 hz.toNat ++ " " ++ hexN 16 h5.toNat ++ " doc=" ++ (if alldoc then "1" else "0") ++ " fdoc=" ++ (if alldocF then "1" else "0")
+    hexN 16 h4.toNat ++ " " ++ hexN 16 hz.toNat ++ " " ++ hexN 16 h5.toNat ++ " doc=" ++ (if alldoc then "1" else "0") ++ " fdoc=" ++ (if alldocF then "1" else "0") ++ " io=" ++ (if anyIo then "1" else "0")
 
 /-! ### request dispatcher -/
 
@@ -415,8 +417,9 @@ def handle (st : DState) (line : String) : DState × String :=
     | none => bad
     | some el =>
       let (c, sl) := executeTimed st.cpu el
+      let io := match (stepArch st.cpu.arch).2.2 with | none => false | some i => Spec.io i.page i.d.op
       ({ st with cpu := c }, replyState c 0 ++ " " ++ (match sl with | none => "-" | some v => hexN 8 v.toNat) ++
-         " " ++ hexN 8 c.slice.cur.toNat)
+         " " ++ hexN 8 c.slice.cur.toNat ++ " io=" ++ b01 io)
   | ["D"] => (st, memDelta st.base st.cpu.arch.bus.mem)
   | ["I", b] => match parseHex b with
     | some n => ({ st with cpu := st.cpu.intRequest (UInt8.ofNat n) }, "ok") | none => bad
